@@ -16,6 +16,17 @@ pub(crate) struct AdjustHeightsHeap {
 }
 
 impl AdjustHeightsHeap {
+    #[cfg(cormacrelf_incremental_rs_verif)]
+    pub(crate) fn verif_dump(&self) -> String {
+        format!(
+            "{{\"len\":{},\"lower\":{},\"max_seen\":{},\"max_allowed\":{},\"queued\":{}}}",
+            self.length,
+            self.height_lower_bound,
+            self.max_height_seen,
+            self.max_height_allowed(),
+            calculate_len(&self.queues)
+        )
+    }
     pub(crate) fn is_empty(&self) -> bool {
         self.length == 0
     }
